@@ -191,8 +191,21 @@ def run (ctx):
         fs = q.fact_strs(rg, cnode) if cnode else []
         is_eid = any('int' in f and f.endswith('truthy') or '== int' in f for f in fs) or 'handler[1]' in rhs
         want = '3' if is_eid else '1'
+        if not idx.isdigit():
+          ctx.undecided('R-AGREE', rem, "filter `%s` compares the right tuple slot" % norm(cond), "slot index `%s` is not a literal" % idx, (mod, n), 'D4')
+          continue
         ctx.ob('R-AGREE', rem, "filter `%s` compares the right tuple slot" % norm(cond), idx == want and isinstance(cond.ops[0], ast.NotEq),
                "slot %s, != " % idx if idx == want else "filter uses slot %s where entries are (priority, handler, once, eid)" % idx, (mod, n), 'D4')
+  # a removal must not hide behind a short-circuit: `altered = altered or self._remove(...)` stops removing after the first hit
+  for n in ast.walk(rem.node):
+    if isinstance(n, ast.BoolOp):
+      for v in n.values[1:]:
+        for c in calls_in(v):
+          callee = em.find_method(call_name(c)) if isinstance(c.func, ast.Attribute) and norm(c.func.value) == 'self' else None
+          if callee is not None and list(q.mutations_of_attr(callee.node, TABLE)) + [1 for t, v_, s_, k in q.stores_in(callee.node) if isinstance(t, ast.Subscript) and q.mentions_attr(t, TABLE)]:
+            ctx.bad('R-EFFECT', rem, "every removal is executed (`%s`)" % norm(n)[:60],
+                    "`%s` changes the handler table but is the right operand of `%s`: once the left operand is true it is not evaluated - a handler subscribed to several "
+                    "event types is removed from the first one only and keeps being invoked for the others" % (norm(c)[:60], 'or' if isinstance(n.op, ast.Or) else 'and'), (mod, n), 'D4')
 
   # ---- D5 declared events ----------------------------------------------------------------
   undeclared = [('self._eventMixin_events is not True', True), ('eventType not in self._eventMixin_events', True), ('byName', False)]
@@ -280,17 +293,46 @@ def run (ctx):
   ab = mod.funcs.get('autoBindEvents')
   if ab is None: raise AnalysisError("autoBindEvents vanished")
   ctx.analysed(ab)
+  def slen (e):
+    """length of a string expression as (constant, {variable: multiplicity}) or None"""
+    if isinstance(e, ast.Constant) and isinstance(e.value, str): return (len(e.value), {})
+    if isinstance(e, ast.BinOp) and isinstance(e.op, ast.Add):
+      a_, b_ = slen(e.left), slen(e.right)
+      if a_ is None or b_ is None: return None
+      d = dict(a_[1])
+      for k_, v_ in b_[1].items(): d[k_] = d.get(k_, 0) + v_
+      return (a_[0] + b_[0], d)
+    if isinstance(e, ast.Name):
+      v = repo.try_const(mod, e, None)
+      if isinstance(v, str): return (len(v), {})
+      return (0, {e.id: 1})
+    return None
+  def ilen (e):
+    if isinstance(e, ast.Constant) and isinstance(e.value, int): return (e.value, {})
+    if isinstance(e, ast.Call) and call_name(e) == 'len' and len(e.args) == 1: return slen(e.args[0])
+    if isinstance(e, ast.BinOp) and isinstance(e.op, ast.Add):
+      a_, b_ = ilen(e.left), ilen(e.right)
+      if a_ is None or b_ is None: return None
+      d = dict(a_[1])
+      for k_, v_ in b_[1].items(): d[k_] = d.get(k_, 0) + v_
+      return (a_[0] + b_[0], d)
+    if isinstance(e, ast.Name):
+      d_ = q.single_def(ab.node, e.id)
+      if d_ is not None: return ilen(d_)
+    return None
+  def sresolve (e):
+    if isinstance(e, ast.Name):
+      d_ = q.single_def(ab.node, e.id)
+      if d_ is not None and repo.try_const(mod, e, None) is None: return d_
+    return e
   lit = None; off = None
   for c in calls_in(ab.node):
-    if call_name(c) == 'startswith' and c.args and isinstance(c.args[0], ast.BinOp):
-      parts = [x.value for x in ast.walk(c.args[0]) if isinstance(x, ast.Constant) and isinstance(x.value, str)]
-      lit = sum(len(p) for p in parts)
+    if call_name(c) == 'startswith' and c.args and isinstance(c.func.value, ast.Name):
+      lit = slen(sresolve(c.args[0])); subj = c.func.value.id
   for n in ast.walk(ab.node):
-    if isinstance(n, ast.Subscript) and isinstance(n.slice, ast.Slice) and n.slice.lower is not None and 'len(prefix)' in norm(n.slice.lower):
-      lo = n.slice.lower
-      consts = [x.value for x in ast.walk(lo) if isinstance(x, ast.Constant) and isinstance(x.value, int)]
-      off = sum(consts)
-  ctx.ob('R-AGREE', ab, "event name is what follows '_handle' + prefix + '_'", lit is not None and off == lit, "slice offset %s + len(prefix), literal prefix length %s" % (off, lit), ab, 'D8')
+    if isinstance(n, ast.Subscript) and isinstance(n.slice, ast.Slice) and n.slice.lower is not None and n.slice.upper is None and isinstance(n.value, ast.Name) and lit is not None and n.value.id == subj:
+      off = ilen(n.slice.lower)
+  ctx.ob('R-AGREE', ab, "event name is what follows '_handle' + prefix + '_'", lit is not None and off == lit, "slice offset %s, tested prefix length %s (constant, {variable: count})" % (off, lit), ab, 'D8')
   byname = [n for n in ast.walk(add.node) if isinstance(n, ast.Compare) and '__name__' in norm(n.left) and norm(n.comparators[0]) == 'eventType']
   ctx.ob('R-AGREE', add, "by-name subscription compares the event class's __name__", bool(byname), norm(byname[0]) if byname else "no __name__ comparison", add, 'D8')
 
